@@ -1618,6 +1618,9 @@ func (w *world) lifecycle(variant int) {
 			w.opBlock(5)
 			w.opWithdraw(0)
 		} else {
+			// the removed, matured oracle asks for its rewards BEFORE it unbonds: refused (offline) — were it served, the matured
+			// stake sitting at the delegate address, penalty included, would be swept out and the unbond could never pay
+			w.opWithdraw(0)
 			w.opUnbond(0)
 		}
 		w.opBlock(5)
